@@ -33,6 +33,24 @@ def model_value(m, v):
         return False
     return None
 
+def purify(assumptions, extra):
+    """replace every uninterpreted-function application by a fresh constant (drops congruence: weaker assumptions,
+    so an `unsat` answer remains a valid proof; `sat` answers of the purified problem are NOT used)"""
+    cache = {}
+    def walk(e):
+        if z3.is_app(e):
+            if e.num_args() == 0:
+                return e
+            args = [walk(c) for c in e.children()]
+            if e.decl().kind() == z3.Z3_OP_UNINTERPRETED:
+                key = (e.decl().name(), tuple(a.get_id() for a in args))
+                if key not in cache:
+                    cache[key] = z3.Real('uf!%s!%d' % (e.decl().name(), len(cache)))
+                return cache[key]
+            return e.decl()(*args)
+        return e
+    return [walk(a) for a in assumptions], [walk(a) for a in extra]
+
 def smt_check(assumptions, extra, timeout_ms, want_model_vars=None, tactics=('default', 'nlsat')):
     """returns (status 'unsat'|'sat'|'unknown', model dict or None, solver name, seconds)"""
     t0 = time.time()
@@ -42,6 +60,11 @@ def smt_check(assumptions, extra, timeout_ms, want_model_vars=None, tactics=('de
             s = z3.Solver()
         elif tac == 'nlsat':
             s = z3.Tactic('qfnra-nlsat').solver()
+        elif tac == 'eqs+nlsat':
+            s = z3.Then('simplify', 'solve-eqs', 'elim-uncnstr', 'simplify', 'qfnra-nlsat').solver()
+        elif tac == 'purify+nlsat':
+            assumptions, extra = purify(assumptions, extra)
+            s = z3.Then('simplify', 'solve-eqs', 'simplify', 'qfnra-nlsat').solver()
         else:
             s = z3.Tactic(tac).solver()
         s.set('timeout', int(timeout_ms))
@@ -55,6 +78,9 @@ def smt_check(assumptions, extra, timeout_ms, want_model_vars=None, tactics=('de
             r = z3.unknown
         if r == z3.unsat:
             return 'unsat', None, 'z3-%s(%s)' % (z3.get_version_string(), tac), time.time() - t0
+        if r == z3.sat and tac == 'purify+nlsat':
+            last = 'unknown'
+            continue
         if r == z3.sat:
             m = s.model()
             mv = {}
@@ -109,6 +135,15 @@ class Ctx:
         self.rule_counts = {}
         self.timeout_ms = 20000 if tier == 'quick' else 120000
         self.assumed = []      # textual list of assumptions used (axioms, callee contracts)
+        self._vac_seen = set()
+        self.pin_defaults = {}
+
+    def _fill(self, env, expr, numeval):
+        e = dict(env)
+        for n in numeval.free_vars(expr):
+            if n not in e and n not in numeval.CONSTS and n in self.pin_defaults:
+                e[n] = self.pin_defaults[n]
+        return e
 
     def real(self, name):
         v = z3.Real(name)
@@ -135,8 +170,10 @@ class Ctx:
         if isinstance(claim, bool):
             claim = z3.BoolVal(claim)
         t0 = time.time()
-        if check_vacuity:
-            st, _, _, _ = smt_check(assumptions, [], min(tmo, 5000), tactics=('default',))
+        vkey = tuple(sorted(a.get_id() for a in assumptions))
+        if check_vacuity and vkey not in self._vac_seen:
+            self._vac_seen.add(vkey)
+            st, _, _, _ = smt_check(assumptions, [], min(tmo, 4000), tactics=('nlsat',))
             if st == 'unsat':
                 self.results.append(GoalResult(gid, ERROR, 'B', time.time() - t0,
                                                'vacuous: assumptions are contradictory', kind=kind))
@@ -154,6 +191,32 @@ class Ctx:
                 if st3 == 'sat':
                     st, model, solver = 'sat', model3, solver3 + '+pinned'
                     break
+        if st == 'unknown' and pins:
+            # numeric refutation under the standard interpretation of the uninterpreted symbols (gm2v/numeval.py)
+            from . import numeval
+            for pin in pins:
+                try:
+                    env = {(k if isinstance(k, str) else str(k)): v for k, v in pin.items()}
+                    conds = []
+                    skip = False
+                    for a in assumptions:
+                        try:
+                            if not numeval.evb(a, self._fill(env, a, numeval), None):
+                                skip = True
+                                break
+                        except numeval.CannotEval as ce:
+                            if '!' in str(ce):
+                                continue      # enclosure axiom with an existential remainder: true in the standard model
+                            raise
+                    if skip:
+                        continue
+                    bad, envf = numeval.refute_at([], claim, self._fill(env, claim, numeval))
+                    if bad:
+                        st, solver = 'sat', 'numeric evaluation (mpmath, 40 digits) at a pinned point'
+                        model = {k: (Fraction(v) if isinstance(v, (int, float, Fraction)) else v) for k, v in envf.items() if not isinstance(v, bool)}
+                        break
+                except (numeval.CannotEval, numeval.Margin):
+                    continue
         if st == 'unknown' and external:
             st2, solver2, secs2 = smt_external(assumptions, [z3.Not(claim)], max(5, int(tmo / 1000)))
             if st2 == 'unsat':
